@@ -118,7 +118,7 @@ def check(run: Run, ctx) -> None:
     for i in range(ctx.budget(14, 120)):
         r = rng(f"C19:{i}")
         o = gs.Opts(mainstream=True, max_ops=4, always_opid=(i % 2 == 0), prefix_names=(i % 7 == 6), streaming=False,
-                    component_params=(i % 3 == 1), multi_2xx=(i % 3 != 0))
+                    component_params=(i % 3 == 1), multi_2xx=(i % 3 != 0), component_responses=(i % 2 == 1), shared_error_codes=(i % 2 == 1))
         doc = gs.gen_spec(r, o)
         variants = {"json": {"doc": doc, "fmt": "json"}, "yaml": {"doc": doc, "fmt": "yaml"}, "yamlflow": {"doc": doc, "fmt": "yaml-flow"}, "yamlmerge": {"doc": doc, "fmt": "yaml-merge"},
                     "yamlint": {"doc": to_int_status_keys(doc), "fmt": "yaml"},
